@@ -272,6 +272,9 @@ func c01Demux(serialise bool, l int) *c01Net {
 
 // clients – goat.Proxy – one pipe – goat.Demux keyed by source – one Serve per client (as TestRealProxy
 // wires it, with the demultiplexer in front of the server).
+// c01ProxyIntercept, when set, is the interceptor of the proxies c01Proxy builds (c02c.go sets it).
+var c01ProxyIntercept goat.RpcIntercepter
+
 func c01Proxy(serialise bool, l int) *c01Net {
 	names := c01Names(l)
 	impl := &Impl{}
@@ -313,7 +316,7 @@ func c01Proxy(serialise bool, l int) *c01Net {
 			running.Add(1)
 			go func() { defer running.Done(); dm.Run() }()
 			return pe, nil
-		}, nil, nil)
+		}, c01ProxyIntercept, nil)
 	running.Add(1)
 	go func() { defer running.Done(); proxy.Serve() }()
 	n := &c01Net{kind: "proxy", serialise: serialise, impl: impl, names: names, limit: goat.VerifClientBufferSize}
@@ -551,6 +554,7 @@ func c01Round(r *Run, net *c01Net, n, round int, rng *rand.Rand) bool {
 func runC01(r *Run) {
 	c01ReusedReply(r)
 	c01MethodSpelling(r)
+	c01Reattach(r)
 	sizes := []int{1, 2, 8, r.Scale(16, 64)}
 	perMode := r.Scale(0, 50000) // calls per topology and transport kind (quick: cycles below)
 	cycles := r.Scale(8, 0)
